@@ -17,7 +17,7 @@
 (* quantifies r over the value space (small constants), the trace            *)
 (* specifications T_*.tla bind r to the value logged from the real code.     *)
 (***************************************************************************)
-EXTENDS LaneInt, LaneBool, TLC
+EXTENDS LaneInt, LaneBool, LaneFloat, TLC
 
 VARIABLES reg, breg, last
 xvars == <<reg, breg, last>>
@@ -67,9 +67,51 @@ Ew2IntWith(op, t, a, b, r) ==
   /\ last' = <<op, t>>
   /\ UNCHANGED breg
 
+\* ---- element-wise floating-point action (C02, C08, same-width conversions of C06, C17) --------------------------
+FmtOfT(t) == IF t = "f32" THEN F32 ELSE F64
+EwFloatLaneOK(op, t, a, b, c, r, i) ==
+  LET f == FmtOfT(t) IN
+  CASE op = "ldexp"            -> LdexpRel(f, Lane(a, t, i), Lane(b, t, i), Lane(r, t, i))
+    [] op = "nearbyint_as_int" -> NearRel(f, Lane(a, t, i), TypeTab[t].nb, Lane(r, t, i))
+    [] op = "to_int"           -> CvtRel("float", TRUE, Lane(a, t, i), "int", TRUE, TypeTab[t].nb, Lane(r, t, i))
+    [] op = "to_float"         -> CvtRel("int", TRUE, Lane(a, t, i), "float", TRUE, TypeTab[t].nb, Lane(r, t, i))
+    [] OTHER                   -> FloatRel(op, f, Lane(a, t, i), RowOr(b, t, i), RowOr(c, t, i), Lane(r, t, i))
+EwFloatBad(op, t, a, b, c, r) == {i \in LaneIdx(t) : ~EwFloatLaneOK(op, t, a, b, c, r, i)}
+EwFloatWith(op, t, a, b, c, r) ==
+  /\ EwFloatBad(op, t, a, b, c, r) = {}
+  /\ reg' = [reg EXCEPT ![0] = r, ![1] = a, ![2] = b, ![3] = c] /\ last' = <<op, t>> /\ UNCHANGED breg
+EwFloatKnown(op, t, a, b, bad) ==
+  IF op = "ldexp" /\ bad # {} /\ \A i \in bad : LdexpOutOfRange(FmtOfT(t), Lane(b, t, i)) THEN "ldexp-range" ELSE "-"
+FrexpKnown(t, a, bad) == IF bad # {} /\ \A i \in bad : FrexpSpecialOperand(FmtOfT(t), Lane(a, t, i)) THEN "frexp-special" ELSE "-"
+\* predicates isnan/isinf/...: one byte per lane
+PredBad(op, t, a, r) == {i \in LaneIdx(t) : r[i + 1] # B2I(FloatPred(op, FmtOfT(t), Lane(a, t, i)))}
+PredWith(op, t, a, r) == /\ PredBad(op, t, a, r) = {} /\ breg' = r /\ reg' = [reg EXCEPT ![1] = a] /\ last' = <<op, t>>
+\* frexp: mantissa row followed by exponent row (same-width signed integers)
+FrexpBad(t, a, r) == LET m == SubSeq(r, 1, RowBytes)  ex == SubSeq(r, RowBytes + 1, 2 * RowBytes) IN
+                     {i \in LaneIdx(t) : ~FrexpRel(FmtOfT(t), Lane(a, t, i), Lane(m, t, i), Lane(ex, t, i))}
+FrexpWith(t, a, r) == /\ FrexpBad(t, a, r) = {} /\ reg' = [reg EXCEPT ![0] = r, ![1] = a] /\ last' = <<"frexp", t>> /\ UNCHANGED breg
+
+\* ---- conversions and bitwise_cast (C06): register-granular; the operand row is read cyclically -------------------------
+CycLane(row, t, i) == Lane(row, t, i % NLanes(t))
+CvtLaneOK(tf, tt, x, r) == CvtRel(TypeTab[tf].kind, TypeTab[tf].S, x, TypeTab[tt].kind, TypeTab[tt].S, TypeTab[tt].nb, r)
+OutLane(r, tt, i) == SubSeq(r, i * TypeTab[tt].nb + 1, (i + 1) * TypeTab[tt].nb)
+\* number of elements converted by each operation for register width w
+CvtCount(op, tf, tt, w) == IF op \in {"batch_cast", "store_as", "store_as_al"} THEN w \div TypeTab[tf].nb ELSE w \div TypeTab[tt].nb
+CvtBad(op, tf, tt, w, a, r) ==
+  IF op = "broadcast_as" THEN {i \in 0 .. CvtCount(op, tf, tt, w) - 1 : ~CvtLaneOK(tf, tt, Lane(a, tf, 0), OutLane(r, tt, i))}
+  ELSE {i \in 0 .. CvtCount(op, tf, tt, w) - 1 : ~CvtLaneOK(tf, tt, CycLane(a, tf, i), OutLane(r, tt, i))}
+RECURSIVE CycBytes(_, _, _, _)
+CycBytes(a, tf, i, n) == IF i = n THEN <<>> ELSE CycLane(a, tf, i) \o CycBytes(a, tf, i + 1, n)
+\* bitwise_cast reproduces the register's bytes and casting back is the identity (r = cast bytes followed by the round trip)
+BitCastOK(tf, w, a, r) == LET src == CycBytes(a, tf, 0, w \div TypeTab[tf].nb) IN r = src \o src
+BitCastScalarOK(tf, tt, a, r) == LET x == Lane(a, tf, 0) IN TypeTab[tf].nb = TypeTab[tt].nb /\ r = x \o x
+CvtWith(op, tf, tt, w, a, r) ==
+  /\ IF op = "bitwise_cast" THEN (IF w = 0 THEN BitCastScalarOK(tf, tt, a, r) ELSE BitCastOK(tf, w, a, r))
+     ELSE CvtBad(op, tf, tt, w, a, r) = {}
+  /\ reg' = [reg EXCEPT ![0] = r, ![1] = a] /\ last' = <<op, tf, tt>> /\ UNCHANGED breg
+
 \* ---- comparisons, select, Boolean registers (C03) ------------------------------------------------
-FmtOf(t) == IF t = "f32" THEN F32 ELSE F64
-CmpLane(op, t, x, y) == IF TypeTab[t].kind = "float" THEN CmpFloat(op, FmtOf(t), x, y) ELSE CmpInt(op, TypeTab[t].S, x, y)
+CmpLane(op, t, x, y) == IF TypeTab[t].kind = "float" THEN CmpFloat(op, FmtOfT(t), x, y) ELSE CmpInt(op, TypeTab[t].S, x, y)
 \* r holds one byte (0/1) per lane
 CmpBad(op, t, a, b, r) == {i \in LaneIdx(t) : r[i + 1] # B2I(CmpLane(op, t, Lane(a, t, i), Lane(b, t, i)))}
 CmpWith(op, t, a, b, r) ==
